@@ -71,7 +71,9 @@ _OPCH = set('-+/*<>=~!@#%^&|?:.$\\')
 
 def glued(words, gaps):
     """indices i where words[i-1] and words[i] come out without separator although the input separated them and
-    the two would fuse into a different token"""
+    the lexer reads the concatenation differently from the two words on their own (decided by lexing the pair, not by
+    a character table: `- a` -> `-a` is still operator + name, `1 a` -> `1a` is not number + name)"""
+    from sqlparse import lexer
     bad = []
     for i in range(1, len(words)):
         if gaps[i] != '':
@@ -79,13 +81,13 @@ def glued(words, gaps):
         a, b = words[i - 1], words[i]
         if len(b) > 3 and b[3] == '':
             continue                      # already written tight in the input
-        if a[0] == 'comment':
-            continue                      # a comment ends with its terminator (*/ or a line end): nothing can extend it
-        if b[0] == 'comment':
-            last = a[1][-1]
-            if last in _OPCH or (b[1][0] == '#' and (last.isalnum() or last in '_$#@')):
-                bad.append(i)
+        if a[0] == 'comment' and a[1][-1:] in '\r\n':
             continue
-        if not safe_pair(a[1][-1], b[1][0]):
+        try:
+            sep = list(lexer.tokenize(a[1])) + list(lexer.tokenize(b[1]))
+            tog = list(lexer.tokenize(a[1] + b[1]))
+        except Exception:
+            continue
+        if [(str(t), v) for t, v in sep] != [(str(t), v) for t, v in tog]:
             bad.append(i)
     return bad
